@@ -22,6 +22,29 @@ CLAIMS = {
         'note': COMMON_NOTE + ' preseal_melmint/apply_tip_909 are abstracted as events here.',
         'technique': 'bounded symbolic execution of rustc MIR + z3 (bit-vector) obligations, case split over delta',
     },
+    'C02': {
+        'text': 'Symbolic execution of the MIR of UnsealedState::apply_tx_batch (load_relevant_coins, extract_input_coins, '
+                'output_coins_from_tx, load_stake_info, check_tx_validity, create_next_state, handle_faucet_tx ...) on a '
+                'symbolic batch from an arbitrary state: for a universally quantified coin id q the post-state entry equals '
+                'the reference ((coins minus inputs) plus non-destroyed outputs with the new-token rewrite, the block height, '
+                'plus faucet markers); accepted => every input existed or is created in the batch and none repeats; '
+                'rejected => state untouched; no reachable panic.',
+        'design_ref': 'DESIGN.md §8 C02',
+        'note': COMMON_NOTE + ' Bounds: 1 tx x (2 in, 2 out) and 2 tx x (1,1) (thorough: 2x(2,2), 3x(1,1)), all TxKinds except '
+                'DoscMint, height >= 1. CoinMapping methods enter through their contracts (discharged in C20); covenants '
+                'are uninterpreted; base_fee over-approximated; A-HASH/A-CODEC/A-FRESH.',
+        'technique': 'bounded symbolic execution of rustc MIR with state joining + z3/cvc5 obligations against a reference map model',
+    },
+    'C14': {
+        'text': 'Symbolic execution of the MIR of SealedState::confirm and StakeSet::{votes,total_votes}: confirmed => every '
+                'signature valid for the header hash under its own key; all valid and 3P > 2T => confirmed; T > 0 and '
+                '3P < 2T => not confirmed (P, T as unbounded integers); votes()/total_votes() equal the sums over active '
+                'stakes; votes are asked for the state\'s own epoch; no panic.',
+        'design_ref': 'DESIGN.md §8 C14',
+        'note': COMMON_NOTE + ' Bounds: <= 3 stakes / 2 signers (thorough 4 / 3), full-width weights with total <= 2^127, '
+                'height <= 2e6. Ed25519 verification is an uninterpreted predicate; header() abstracted (C07).',
+        'technique': 'bounded symbolic execution of rustc MIR + z3 bit-vector obligations, compositional (vote kernels + threshold)',
+    },
     'C20': {
         'text': 'Step lemmas on the MIR of CoinMapping::{insert_coin,remove_coin,coin_count,insert_coin_count} from an '
                 'arbitrary coin tree satisfying the count invariant: for a universally quantified covenant hash a, the '
